@@ -622,6 +622,8 @@ def check_c10(tier: str) -> int:
             # while an error code is present, and a text received earlier never comes back with a later error
             rig.console.mute = {"error_info"}
             base = dataclasses.replace(inst.ac_status[spec.number], error_code=0)
+            # (the sequences below add up to 5 steps to the set-point: stay inside what the wire format carries)
+            base = dataclasses.replace(base, set_point=min(base.set_point, 58) if gen == 4 else min(base.set_point, 34.0))
             seqs = [[("status", 0, 1), ("text", "stale"), ("status", 0, 2), ("status", 7, 3)],
                     [("status", 5, 1), ("text", "E5"), ("status", 0, 2), ("status", 0, 3), ("status", 6, 4)],
                     [("status", 0, 1), ("text", "early"), ("status", 9, 2)],
